@@ -332,8 +332,12 @@ type Conn struct {
 	nonceCtr uint64
 
 	autoPong atomic.Bool
-	closed   atomic.Bool
-	closedAt atomic.Int64 // unix nanoseconds
+	// ignorePongs (off by default, see SetIgnorePongs): Loop keeps well-formed tcp.pong frames of the client
+	// to itself and counts them in pongsSeen.
+	ignorePongs atomic.Bool
+	pongsSeen   atomic.Int64
+	closed      atomic.Bool
+	closedAt    atomic.Int64 // unix nanoseconds
 }
 
 func (c *Conn) nextNonce() [32]byte {
@@ -464,6 +468,12 @@ func (c *Conn) Loop(onFrame func(f Frame) bool) error {
 				return nil
 			}
 			continue
+		}
+		if c.ignorePongs.Load() {
+			if _, ok := ParsePong(f.Payload); ok {
+				c.pongsSeen.Add(1)
+				continue
+			}
 		}
 		if onFrame != nil && !onFrame(f) {
 			return nil
